@@ -4,6 +4,7 @@
 package crdtx
 
 import (
+	cidlink "github.com/ipld/go-ipld-prime/linking/cid"
 	"context"
 	"crypto/sha256"
 	"encoding/hex"
@@ -754,3 +755,15 @@ func BlockKey(c cid.Cid) string { return blockKey(c) }
 type SnapExchange = snapExchange
 
 func Exchange(sn vkv.Snap) SnapExchange { return snapExchange{sn} }
+
+// DecodeBlock decodes raw block bytes; CidOfBlock computes the cid of raw block bytes.
+func DecodeBlock(raw []byte) (*coreblock.Block, error) { return coreblock.GetFromBytes(raw) }
+
+func CidOfBlock(raw []byte) (cid.Cid, error) {
+	l := coreblock.GetLinkPrototype().BuildLink(raw)
+	cl, ok := l.(cidlink.Link)
+	if !ok {
+		return cid.Undef, fmt.Errorf("not a cid link")
+	}
+	return cl.Cid, nil
+}
